@@ -2,7 +2,9 @@
 """Regenerate MANIFEST.json from props/*.json (one file per claimed property)."""
 import glob, json, os, subprocess
 ROOT = os.path.dirname(os.path.dirname(os.path.abspath(__file__)))
-props = [json.load(open(p)) for p in sorted(glob.glob(os.path.join(ROOT, "props", "C*.json")))]
+ready = set(open(os.path.join(ROOT, "props", "READY")).read().split())
+props = [json.load(open(p)) for p in sorted(glob.glob(os.path.join(ROOT, "props", "C*.json")))
+         if os.path.basename(p)[:-5] in ready]
 claimed = {p["id"] for p in props}
 allp = [json.loads(l)["id"] for l in open(os.path.join(ROOT, "properties.jsonl")) if l.strip()]
 na_path = os.path.join(ROOT, "props", "not_applicable.json")
